@@ -1,5 +1,6 @@
 (* Model of dlms_cosem/hdlc/address.py (HdlcAddress) and the address validators of
-   hdlc/validators.py, as of the "fix: HDLC server addresses ..." commit.  No proofs here. *)
+   hdlc/validators.py, as of the "fix:" commits e6b12e3 (address forms) and the refusal of addresses without a
+   1/2/4-byte form.  No proofs here. *)
 From Dlms Require Import Base.
 
 (* (logical, physical, is_server) *)
@@ -15,9 +16,13 @@ Definition validate_addr_value (server : bool) (v : Z) : bool :=
 Definition addr_make (l : Z) (p : option Z) (server : bool) : res addr :=
   if negb (validate_addr_value server l) then Err ERefused else
   match p with
-  | None => Ok (Z.to_N l, None, server)
-  | Some pz => if validate_addr_value server pz then Ok (Z.to_N l, Some (Z.to_N pz), server)
-               else Err ERefused
+  | None =>
+      (* __attrs_post_init__: a server address above 127 needs the four-byte form, hence a physical part *)
+      if server && (127 <? l)%Z then Err ERefused else Ok (Z.to_N l, None, server)
+  | Some pz =>
+      if negb (validate_addr_value server pz) then Err ERefused else
+      (* __attrs_post_init__: a client address is one byte and has no physical part *)
+      if negb server then Err ERefused else Ok (Z.to_N l, Some (Z.to_N pz), server)
   end.
 
 Definition nzb (x : N) : bool := negb (x =? 0).
